@@ -13,6 +13,7 @@ mod ops;
 mod process;
 mod rng;
 mod state;
+mod stdproc;
 
 use check::{Property, RunOpts, Tier};
 use driver::*;
